@@ -131,8 +131,12 @@ def c18(prop, tier, verdict):
               for b, w in (([1, 24], [560]), ([3, 20, 20], [540, 20]))]
     # concurrent takes: the burst is spread over 8 sessions (8 reader goroutines take tokens at the same moment), small bucket, slow refill
     rates += [{'rate': {'cap': 2, 'interval_ms': 1000, 'bursts': [24], 'waits_ms': [], 'sessions': 8}, 'steps': []} for _ in range(60 if tier == 'thorough' else 30)]
+    # the take() interleavings of spec/QpsAtomic.tla on the real bucket: 8 goroutines released from a spin barrier into the plugin's header hook, a fresh bucket of 2 per round
+    rates += [{'rate': {'cap': 2, 'interval_ms': 1000, 'bursts': [2000 if tier == 'thorough' else 400], 'waits_ms': [], 'hammer': 8}, 'steps': []}]
+    rq = vlib.tlc_must_hold('QpsAtomic', 'QpsAtomic_mc.cfg', workdir=vlib.scratch('qpsat'), workers=2, timeout=120)
     cov, _ = eng_generic.run(prop, tier, verdict, 'Overload', 'overload', 'POverload', cl, consts={'MaxOps': '8' if tier == 'thorough' else '7', 'GuardRelease': 'TRUE', 'Limits': '{0, 1, 2}'},
                              mc_cfg='Overload_mc.cfg', extra_cfg='VIEW view', min_count=3000, nontrivial=lambda s: len(s.get('steps', [])) > 2, extra_scenarios=rates)
+    cov['qps_atomic_model'] = 'spec/QpsAtomic.tla: 4 concurrent takers on a bucket of 2 at atomic-operation granularity: %d distinct states, NeverOver holds' % rq['distinct']
     cov['atomic_model'] = 'spec/OverloadAtomic.tla: 3 concurrent take/release threads at atomic-operation granularity, limit 2: %d distinct states, NeverOver holds' % ra['distinct']
     return 'model_checking', cov, ['connection limit 1..3, histories of at most 7 operations (connect, concurrent burst of 2-3 connects, disconnect, close, raise of the limit), one scenario per transition of the model',
                                    'the interleavings of the limiter\'s atomic operations are model-checked (design level) and exercised by the concurrent bursts, not replayed step by step',
